@@ -12132,6 +12132,10 @@ CK_RV SoftHSM::getRSAPrivateKey(RSAPrivateKey* privateKey, Token* token, OSObjec
 		coefficient = key->getByteStringValue(CKA_COEFFICIENT);
 	}
 
+	// An RSA key without modulus or private exponent (an object whose file was cut short) cannot be used
+	if (modulus.size() == 0 || privateExponent.size() == 0)
+		return CKR_GENERAL_ERROR;
+
 	privateKey->setN(modulus);
 	privateKey->setE(publicExponent);
 	privateKey->setD(privateExponent);
@@ -12169,6 +12173,10 @@ CK_RV SoftHSM::getRSAPublicKey(RSAPublicKey* publicKey, Token* token, OSObject* 
 		modulus = key->getByteStringValue(CKA_MODULUS);
 		publicExponent = key->getByteStringValue(CKA_PUBLIC_EXPONENT);
 	}
+
+	// An RSA key without modulus or public exponent (an object whose file was cut short) cannot be used
+	if (modulus.size() == 0 || publicExponent.size() == 0)
+		return CKR_GENERAL_ERROR;
 
 	publicKey->setN(modulus);
 	publicKey->setE(publicExponent);
